@@ -549,3 +549,283 @@ Section Element.
     - apply nth_error_None in E. unfold st_at. rewrite !firstn_all2 by lia. auto.
   Qed.
 End Element.
+
+(* ================================================================== 3. bus level: through the multiplexer theorems *)
+
+(* the multiplexer's own input trace along a run of the composite (its element.r_data inputs are the monitor's
+   enable / pending of that cycle) *)
+Fixpoint mux_trace (b : built) (s : cst) (is : list cinp) : list Mux.inp :=
+  match is with
+  | [] => []
+  | i :: is' => mux_inp b s i :: mux_trace b (next b s i) is'
+  end.
+
+Lemma mux_after b : forall is s,
+  c_mux (state_after b s is) = Mux.state_after (b_mux b) (c_mux s) (mux_trace b s is).
+Proof. induction is as [|i is IH]; intros s; cbn [state_after mux_trace Mux.state_after]; auto. rewrite IH. reflexivity. Qed.
+
+Lemma mux_trace_firstn b : forall is s t, firstn t (mux_trace b s is) = mux_trace b s (firstn t is).
+Proof.
+  induction is as [|i is IH]; intros s [|t]; cbn [firstn mux_trace]; auto. rewrite IH. reflexivity.
+Qed.
+
+Lemma mux_trace_nth b : forall is s t,
+  nth_error (mux_trace b s is) t =
+  match nth_error is t with
+  | Some i => Some (mux_inp b (state_after b s (firstn t is)) i)
+  | None => None
+  end.
+Proof.
+  induction is as [|i is IH]; intros s [|t]; cbn [nth_error mux_trace firstn state_after]; auto.
+Qed.
+
+Lemma mux_st_at b is t : c_mux (st_at b is t) = MuxSpec.st_at (b_mux b) (mux_trace b (init b) is) t.
+Proof. unfold st_at, MuxSpec.st_at. rewrite mux_trace_firstn, mux_after. reflexivity. Qed.
+
+(* ------------------------------------------------------------------ vocabulary: bus transactions *)
+
+(* cycle u carries a read strobe at the first address of the enable or of the pending register *)
+Definition first_read (p : params) (is : list cinp) (u : nat) : Prop :=
+  exists i, nth_error is u = Some i /\ ci_rstb i = true /\ (ci_addr i = 0 \/ ci_addr i = pspan p).
+
+(* cycle u carries a write strobe inside register r *)
+Definition write_in (r : Mux.reg) (is : list cinp) (u : nat) : Prop :=
+  exists i, nth_error is u = Some i /\ ci_wstb i = true /\ Mux.r_start r <= ci_addr i < Mux.r_stop r.
+
+(* A write transaction to register r completes at cycle t (its last address is written then).  For every word j
+   that carries mask bits, tj j <= t is the cycle of the LATEST write to address start+j and dj j the data
+   written then; the other register is not written after the earliest of these.  Nothing else is constrained:
+   reads, idle cycles, earlier abandoned attempts, unmapped accesses, padding words, the order of the words. *)
+Definition write_txn (p : params) (r other : Mux.reg) (is : list cinp) (t : nat)
+                     (tj : Z -> nat) (dj : Z -> Z) : Prop :=
+  (exists it, nth_error is t = Some it /\ ci_wstb it = true /\ ci_addr it = Mux.r_stop r - 1) /\
+  forall j, 0 <= j < Mux.reg_len r -> j * pdw p < pn p ->
+    (tj j <= t)%nat /\
+    (exists i, nth_error is (tj j) = Some i /\ ci_wstb i = true /\ ci_addr i = Mux.r_start r + j /\
+               dj j = trunc (pdw p) (ci_wdata i)) /\
+    (forall u i, (tj j < u <= t)%nat -> nth_error is u = Some i ->
+                 ~ (ci_wstb i = true /\ ci_addr i = Mux.r_start r + j)) /\
+    (forall u, (tj j < u <= t)%nat -> ~ write_in other is u).
+
+(* the value a completed write transaction delivers: the words concatenated, clipped to the n mask bits *)
+Definition written_value (p : params) (r : Mux.reg) (dj : Z -> Z) : Z :=
+  MuxSpec.assemble (pdw p) (pn p) dj (Z.to_nat (Mux.reg_len r)).
+
+Section Bus.
+  Variables (p : params) (b : built).
+  Hypothesis Hv : valid p.
+  Hypothesis Hb : built_ok p b.
+
+  Let Hregs : Mux.c_regs (b_mux b) = [reg_en p; reg_pe p]. Proof. apply Hb. Qed.
+  Let Hdw : Mux.c_dw (b_mux b) = pdw p. Proof. apply Hb. Qed.
+  Let Hwf : MuxSpec.wf_cfg (b_mux b). Proof. apply Hb. Qed.
+
+  (* ---------------------------------------------------------------- a completed write delivers its words *)
+
+  Lemma write_lands k r other is t tj dj :
+    nth_error [reg_en p; reg_pe p] k = Some r ->
+    (forall k' r', nth_error [reg_en p; reg_pe p] k' = Some r' -> k' <> k -> r' = other) ->
+    write_txn p r other is t tj dj ->
+    Mux.elem_wdata (b_mux b) (c_mux (st_at b is (S t))) r = written_value p r dj.
+  Proof.
+    intros Hk Hother ((it & Hit & Hws & Ha) & Hj).
+    assert (Hw : Mux.r_width r = pn p /\ Mux.r_wr r = true).
+    { destruct k as [|[|k]]; cbn in Hk; inversion Hk; subst; cbn; auto. destruct k; discriminate. }
+    destruct Hw as (Hwd & Hwr).
+    rewrite mux_st_at. unfold written_value. rewrite <- Hdw, <- Hwd.
+    apply (MuxWrite.write_atomic (b_mux b) (mux_trace b (init b) is) t k r
+             (mux_inp b (state_after b (init b) (firstn t is)) it) tj dj Hwf).
+    - rewrite Hregs. exact Hk.
+    - exact Hwr.
+    - rewrite mux_trace_nth, Hit. reflexivity.
+    - exact Hws.
+    - exact Ha.
+    - intros j Hjr Hjw. rewrite Hdw, Hwd in Hjw. destruct (Hj j Hjr Hjw) as (Hle & (i & Hi & Hiw & Hia & Hd) & Hno & _).
+      split; [exact Hle|]. split.
+      + exists (mux_inp b (state_after b (init b) (firstn (tj j) is)) i).
+        rewrite mux_trace_nth, Hi. cbn [mux_inp Mux.i_wstb Mux.i_addr Mux.i_wdata]. rewrite Hdw. auto.
+      + intros u mi Hu Hmi. rewrite mux_trace_nth in Hmi.
+        destruct (nth_error is u) as [i'|] eqn:Ei; [|discriminate]. injection Hmi as <-.
+        cbn [mux_inp Mux.i_wstb Mux.i_addr]. apply (Hno u i' Hu Ei).
+    - intros j u Hjr Hjw Hu (mi & k' & r' & Hmi & Hk' & Hne & _ & Hmw & Hma).
+      rewrite Hdw, Hwd in Hjw. destruct (Hj j Hjr Hjw) as (_ & _ & _ & Hnow).
+      apply (Hnow u Hu). rewrite Hregs in Hk'. rewrite (Hother k' r' Hk' Hne) in Hma.
+      rewrite mux_trace_nth in Hmi. destruct (nth_error is u) as [i'|] eqn:Ei; [|discriminate]. injection Hmi as <-.
+      exists i'. cbn [mux_inp Mux.i_wstb Mux.i_addr] in Hmw, Hma. auto.
+  Qed.
+
+  Lemma other_of_en k' r' : nth_error [reg_en p; reg_pe p] k' = Some r' -> k' <> 0%nat -> r' = reg_pe p.
+  Proof. destruct k' as [|[|k']]; cbn; intros H Hne; try congruence. destruct k'; discriminate. Qed.
+  Lemma other_of_pe k' r' : nth_error [reg_en p; reg_pe p] k' = Some r' -> k' <> 1%nat -> r' = reg_en p.
+  Proof. destruct k' as [|[|k']]; cbn; intros H Hne; try congruence. destruct k'; discriminate. Qed.
+
+  (* ---------------------------------------------------------------- enable: write *)
+
+  (* two cycles after the last word of a completed enable write, the enable mask is the written value *)
+  Theorem enable_write is t tj dj i' :
+    write_txn p (reg_en p) (reg_pe p) is t tj dj -> nth_error is (S t) = Some i' ->
+    enable_at b is (S (S t)) = written_value p (reg_en p) dj.
+  Proof.
+    intros Htx Hi'. pose proof Htx as ((it & Hit & Hws & Ha) & _).
+    unfold enable_at. rewrite (st_at_S b is (S t) i' Hi'), (enable_latch p b Hb).
+    destruct (strobes_at p b Hb is (S t)) as (He & _). rewrite Hit in He. rewrite He, Hws.
+    cbn [reg_en Mux.r_stop] in Ha. rewrite Ha, Z.eqb_refl. cbn [andb].
+    apply (write_lands 0 (reg_en p) (reg_pe p) is t tj dj eq_refl other_of_en Htx).
+  Qed.
+
+  (* the enable mask changes only in the cycle after a write to the enable register's last address *)
+  Theorem enable_holds is u u' : (u <= u')%nat ->
+    (forall v i, (u <= S v < u')%nat -> nth_error is v = Some i ->
+                 ~ (ci_wstb i = true /\ ci_addr i = pspan p - 1)) ->
+    enable_at b is u' = enable_at b is u.
+  Proof.
+    intros Hle. induction Hle as [|u' Hle IH]; intros Hno; [reflexivity|].
+    rewrite <- IH by (intros v i Hvi; apply Hno; lia).
+    unfold enable_at. destruct (nth_error is u') as [i|] eqn:E.
+    - rewrite (st_at_S b is u' i E), (enable_latch p b Hb).
+      destruct (strobes_at p b Hb is u') as (He & _).
+      destruct u' as [|w]; [rewrite He; reflexivity|].
+      destruct (nth_error is w) as [iw|] eqn:Ew.
+      + rewrite He. destruct (ci_wstb iw && (ci_addr iw =? pspan p - 1)) eqn:Es; [|reflexivity].
+        exfalso. apply (Hno w iw ltac:(lia) Ew). split; lia.
+      + apply nth_error_None in Ew. assert (nth_error is (S w) <> None) by congruence.
+        apply nth_error_Some in H. lia.
+    - apply nth_error_None in E. unfold st_at. rewrite !firstn_all2 by lia. reflexivity.
+  Qed.
+
+  (* ---------------------------------------------------------------- reads: atomic snapshot *)
+
+  Lemma no_first_read_mux is u :
+    ~ first_read p is u -> ~ MuxSpec.any_first_read (b_mux b) (mux_trace b (init b) is) u.
+  Proof.
+    intros Hn (mi & r & Hmi & Hin & _ & Hrs & Ha). apply Hn.
+    rewrite mux_trace_nth in Hmi. destruct (nth_error is u) as [i|] eqn:Ei; [|discriminate]. injection Hmi as <-.
+    exists i. cbn [mux_inp Mux.i_rstb Mux.i_addr] in Hrs, Ha. repeat split; auto.
+    rewrite Hregs in Hin. destruct Hin as [<-|[<-|[]]]; cbn [reg_en reg_pe Mux.r_start] in Ha; auto.
+  Qed.
+
+  (* A multi-word read of either register returns the words of the value the register had at the cycle its
+     FIRST word was read, whatever happens to the mask in between (events arriving, clears, enable writes). *)
+  Lemma read_snapshot k r is t0 t j i0 it :
+    nth_error [reg_en p; reg_pe p] k = Some r ->
+    nth_error is t0 = Some i0 -> ci_rstb i0 = true -> ci_addr i0 = Mux.r_start r ->
+    (t0 <= t)%nat -> (forall u, (t0 < u <= t)%nat -> ~ first_read p is u) ->
+    nth_error is t = Some it -> ci_rstb it = true -> ci_addr it = Mux.r_start r + j -> 0 <= j < Mux.reg_len r ->
+    rdata_at b is (S t) =
+    Mux.word (pdw p) (pn p) j (nth k [enable_at b is t0; pending_at b is t0] 0).
+  Proof.
+    intros Hk Hi0 Hr0 Ha0 Hle Hno Hit Hrt Hat Hj.
+    assert (Hw : Mux.r_width r = pn p /\ Mux.r_rd r = true).
+    { destruct k as [|[|k]]; cbn in Hk; inversion Hk; subst; cbn; auto. destruct k; discriminate. }
+    destruct Hw as (Hwd & Hrd).
+    unfold rdata_at. rewrite mux_st_at.
+    change (Mux.bus_rdata (b_mux b) (MuxSpec.st_at (b_mux b) (mux_trace b (init b) is) (S t)))
+      with (MuxSpec.rdata_at (b_mux b) (mux_trace b (init b) is) (S t)).
+    rewrite (MuxRead.read_atomic (b_mux b) (mux_trace b (init b) is) t0 t k r j
+               (mux_inp b (state_after b (init b) (firstn t0 is)) i0)
+               (mux_inp b (state_after b (init b) (firstn t is)) it) Hwf); auto.
+    - rewrite Hdw, Hwd. f_equal. unfold MuxSpec.rval_at. rewrite mux_trace_nth, Hi0.
+      cbn [mux_inp Mux.i_rvals]. rewrite (rvals_eq p b Hb).
+      fold (st_at b is t0). fold (enable_at b is t0). fold (pending_at b is t0).
+      destruct (mask_ranges p b Hv Hb is t0) as (He & Hp).
+      destruct k as [|[|k]]; cbn [nth]; try (apply trunc_small; assumption).
+      cbn in Hk. destruct k; discriminate.
+    - rewrite Hregs. exact Hk.
+    - rewrite mux_trace_nth, Hi0. reflexivity.
+    - intros u Hu. apply no_first_read_mux, Hno, Hu.
+    - rewrite mux_trace_nth, Hit. reflexivity.
+  Qed.
+
+  Theorem pending_read_snapshot is t0 t j i0 it :
+    nth_error is t0 = Some i0 -> ci_rstb i0 = true -> ci_addr i0 = pspan p ->
+    (t0 <= t)%nat -> (forall u, (t0 < u <= t)%nat -> ~ first_read p is u) ->
+    nth_error is t = Some it -> ci_rstb it = true -> ci_addr it = pspan p + j -> 0 <= j < pspan p ->
+    rdata_at b is (S t) = Mux.word (pdw p) (pn p) j (pending_at b is t0).
+  Proof.
+    intros. apply (read_snapshot 1 (reg_pe p) is t0 t j i0 it); auto.
+    unfold Mux.reg_len. cbn [reg_pe Mux.r_start Mux.r_stop]. lia.
+  Qed.
+
+  Theorem enable_read_snapshot is t0 t j i0 it :
+    nth_error is t0 = Some i0 -> ci_rstb i0 = true -> ci_addr i0 = 0 ->
+    (t0 <= t)%nat -> (forall u, (t0 < u <= t)%nat -> ~ first_read p is u) ->
+    nth_error is t = Some it -> ci_rstb it = true -> ci_addr it = j -> 0 <= j < pspan p ->
+    rdata_at b is (S t) = Mux.word (pdw p) (pn p) j (enable_at b is t0).
+  Proof.
+    intros. apply (read_snapshot 0 (reg_en p) is t0 t j i0 it); auto.
+    unfold Mux.reg_len. cbn [reg_en Mux.r_start Mux.r_stop]. lia.
+  Qed.
+
+  (* ---------------------------------------------------------------- enable: write, then read back *)
+
+  Theorem enable_readback is t tj dj t0 t' j i0 it' :
+    write_txn p (reg_en p) (reg_pe p) is t tj dj ->
+    (S t < t0)%nat ->
+    (forall v i, (t < v)%nat -> (S v < t0)%nat -> nth_error is v = Some i ->
+                 ~ (ci_wstb i = true /\ ci_addr i = pspan p - 1)) ->
+    nth_error is t0 = Some i0 -> ci_rstb i0 = true -> ci_addr i0 = 0 ->
+    (t0 <= t')%nat -> (forall u, (t0 < u <= t')%nat -> ~ first_read p is u) ->
+    nth_error is t' = Some it' -> ci_rstb it' = true -> ci_addr it' = j -> 0 <= j < pspan p ->
+    rdata_at b is (S t') = Mux.word (pdw p) (pn p) j (written_value p (reg_en p) dj).
+  Proof.
+    intros Htx Hlt Hno Hi0 Hr0 Ha0 Hle Hnf Hit Hrt Hat Hj.
+    rewrite (enable_read_snapshot is t0 t' j i0 it'); auto. f_equal.
+    assert (Hex : exists i', nth_error is (S t) = Some i').
+    { destruct (nth_error is (S t)) eqn:E; eauto. apply nth_error_None in E.
+      assert (nth_error is t0 <> None) by congruence. apply nth_error_Some in H. lia. }
+    destruct Hex as (i' & Hi').
+    rewrite <- (enable_write is t tj dj i' Htx Hi').
+    apply enable_holds; [lia|]. intros v i Hvi Hn. apply (Hno v i); auto; lia.
+  Qed.
+
+  (* ---------------------------------------------------------------- pending: write-one-to-clear through the bus *)
+
+  (* the cycle after the last word of a completed pending write, exactly the written ones are cleared, except
+     those whose event triggers in that very cycle *)
+  Theorem pending_clear_by_write is t tj dj i' k :
+    write_txn p (reg_pe p) (reg_en p) is t tj dj -> nth_error is (S t) = Some i' ->
+    (k < length (p_modes p))%nat ->
+    Z.testbit (pending_at b is (S (S t))) (Z.of_nat k) =
+    trg_at (p_modes p) is (S t) k ||
+    (Z.testbit (pending_at b is (S t)) (Z.of_nat k) &&
+     negb (Z.testbit (written_value p (reg_pe p) dj) (Z.of_nat k))).
+  Proof.
+    intros Htx Hi' Hk. pose proof Htx as ((it & Hit & Hws & Ha) & _).
+    rewrite (pending_w1c p b Hv Hb is (S t) i' k Hi' Hk).
+    assert (E : written_ones p b (st_at b is (S t)) = written_value p (reg_pe p) dj).
+    { unfold written_ones. destruct (strobes_at p b Hb is (S t)) as (_ & Hp). rewrite Hit in Hp. rewrite Hp, Hws.
+      cbn [reg_pe Mux.r_stop] in Ha. rewrite Ha, Z.eqb_refl. cbn [andb].
+      apply (write_lands 1 (reg_pe p) (reg_en p) is t tj dj eq_refl other_of_pe Htx). }
+    rewrite E. reflexivity.
+  Qed.
+
+  (* in every other cycle nothing is cleared: pending bits only get set *)
+  Theorem pending_not_cleared_without_write is t i k :
+    nth_error is t = Some i -> (k < length (p_modes p))%nat ->
+    (forall t' iw, t = S t' -> nth_error is t' = Some iw ->
+                   ~ (ci_wstb iw = true /\ ci_addr iw = pspan p + pspan p - 1)) ->
+    Z.testbit (pending_at b is (S t)) (Z.of_nat k) =
+    trg_at (p_modes p) is t k || Z.testbit (pending_at b is t) (Z.of_nat k).
+  Proof.
+    intros Hi Hk Hno. rewrite (pending_w1c p b Hv Hb is t i k Hi Hk).
+    assert (E : written_ones p b (st_at b is t) = 0).
+    { unfold written_ones. destruct (strobes_at p b Hb is t) as (_ & Hp). rewrite Hp.
+      destruct t as [|t']; [reflexivity|].
+      destruct (nth_error is t') as [iw|] eqn:Ew.
+      - destruct (ci_wstb iw && (ci_addr iw =? pspan p + pspan p - 1)) eqn:Es; [|reflexivity].
+        exfalso. apply (Hno t' iw eq_refl Ew). split; lia.
+      - apply nth_error_None in Ew. assert (nth_error is (S t') <> None) by congruence.
+        apply nth_error_Some in H. lia. }
+    rewrite E, Z.bits_0. cbn [negb]. rewrite andb_true_r. reflexivity.
+  Qed.
+
+  (* writing zeros clears nothing, even in the cycle the write takes effect *)
+  Theorem pending_zeros_clear_nothing s i k : Event.st_ok (b_mon b) (c_mon s) -> (k < length (p_modes p))%nat ->
+    Z.testbit (written_ones p b s) (Z.of_nat k) = false ->
+    Z.testbit (Event.st_pending (c_mon s)) (Z.of_nat k) = true ->
+    Z.testbit (Event.st_pending (c_mon (next b s i))) (Z.of_nat k) = true.
+  Proof.
+    intros Hok Hk Hz Hp. destruct (pending_w1c_step p b Hb s i k Hok Hk) as (tk & _ & ->).
+    rewrite Hz, Hp. cbn. apply orb_true_r.
+  Qed.
+End Bus.
